@@ -108,6 +108,14 @@ func C13(c *core.Ctx) {
 			follow := []byte{0xa3, 'e', 'n', 'd'}
 			base := append(append([]byte{}, encs[j]...), follow...)
 			c13One(c, m.Mode, base, "valid+follow")
+			if m.Mode == "forward" {
+				// the arity of an ENTRY (not of the message): one element too many in the last entry
+				for _, extra := range [][]byte{{0xc0}, {0x80}, {0x81, 0xa5, 'c', 'h', 'u', 'n', 'k', 0xa1, 'X'}} {
+					if mut, ok := gen.EntryExtra(encs[j], extra); ok {
+						c13One(c, "forward", append(mut, follow...), "entry-arity+elem")
+					}
+				}
+			}
 			for t := 0; t < 3; t++ {
 				mut, label := gen.Mutate(r, encs[j])
 				if t == 0 && encs[j][0] >= 0x90 && encs[j][0] <= 0x9f {
